@@ -130,6 +130,20 @@ Section Layout.
   Lemma g_Bk_eq t : G (@g_Bk_off) t = t * (dnx d + dnu d) + dnx d /\ G (@g_Bk_len) t = dnu d. Proof. split; lay. Qed.
 End Layout.
 
+(* ================================================================== 1b. the iteration ORDER of the four stage loops *)
+Section Orders.
+  Context {T : Type} {HN : Num T}.
+  Variable F : ocp_fns T.
+  Variable L : lqr_fns T.
+  Variable lsolve : list (list T) -> list T -> list T.
+  Variable d : dims.
+  (* forward: t = 0 .. N-1;  backward: t = N-1 .. 0;  factor_masked: i = N-1 .. 0;  solve_masked: i = 0 .. N-1 *)
+  Lemma g_forward_for1_order_eq n : g_forward_for1_order F L lsolve d n = seq 0 n. Proof. reflexivity. Qed.
+  Lemma g_backward_for1_order_eq n : g_backward_for1_order F L lsolve d n = rev (seq 0 n). Proof. reflexivity. Qed.
+  Lemma g_factor_masked_for1_order_eq n : g_factor_masked_for1_order F L lsolve d n = rev (seq 0 n). Proof. reflexivity. Qed.
+  Lemma g_solve_masked_for1_order_eq n : g_solve_masked_for1_order F L lsolve d n = seq 0 n. Proof. reflexivity. Qed.
+End Orders.
+
 (* ================================================================== 2. forward *)
 Lemma zeta_eq {T} `{Num T} (c y μ : list T) : vadd c (vdiv y μ) = zeta c y μ.
 Proof.
@@ -294,7 +308,7 @@ Section ForwardEq.
     = (snd (forward f h hN l lN c cN d Dlb Dub DNlb DNub x0 us y μ), fst (forward f h hN l lN c cN d Dlb Dub DNlb DNub x0 us y μ)).
   Proof.
     intros LN Lx0 Hs. pose proof Hwf as (Wf & Wh & WhN & Wc & WcN).
-    unfold g_forward, forward. cbv zeta. layout_rw. rewrite <- LN at 1.
+    unfold g_forward, forward. cbv zeta. layout_rw. rewrite g_forward_for1_order_eq. rewrite <- LN at 1.
     destruct (g_forward_loop_eq us 0 [] x0 tail n0) as (tailN & LtN & E); [cbn; lia | reflexivity | exact Lx0 | exact Hs |].
     cbn [app] in E. rewrite E. rewrite forward_from_split.
     destruct (stages_from_xN_length us 0 x0 n0 Lx0 (fshape_us _ _ Hs)) as [LxN Lblk].
@@ -495,7 +509,7 @@ Section BackwardEq.
          (concat gs, concat qrs ++ qN, wx', λ0, wc')).
   Proof.
     intros Lg Lqr LqN. pose proof Hwf as (_ & _ & HgcpN & _ & WJN & _).
-    unfold g_backward, backward. cbv zeta. layout_rw.
+    unfold g_backward, backward. cbv zeta. layout_rw. rewrite g_backward_for1_order_eq.
     set (qNc := pf_eval_q_N F (xk N) (hk N)) in *.
     set (qN := qN_of nx ncN DNlb DNub qNc JcN (ck N) (seg (N * nc) ncN y) (seg (N * nc) ncN μ)).
     assert (LqN' : length qN = nx).
@@ -748,7 +762,7 @@ Section RiccatiEq.
       stored 0 sts (fst (fst (factor_masked lsolve nx sts QN qN))) gK' e' /\ length gK' = length gK /\ length e' = length e.
   Proof.
     intros Hops HQN HqN Hw HQ HQs Hq Hsol LgK Le.
-    unfold g_factor_masked. cbv zeta. rewrite HQN, HqN, (madd_mzero_l nx nx QN HQ).
+    unfold g_factor_masked. cbv zeta. rewrite g_factor_masked_for1_order_eq, HQN, HqN, (madd_mzero_l nx nx QN HQ).
     destruct sts as [|st sts].
     - exists gK, e, c, y, t, PA. cbn. auto.
     - destruct Hops as [Hop Hops]. pose proof (Forall_inv Hw) as Hst. pose proof (Forall_inv_tail Hw) as Hw'.
@@ -799,7 +813,7 @@ Section RiccatiEq.
       g_solve_masked F L lsolve d (length sts) nx nu (concat (map (@sfix R) sts)) Δx gK e
       = (concat (solve_masked nx sts gs), Δx', e').
   Proof.
-    intros Hops Hw Hsto LΔx Le. unfold g_solve_masked, solve_masked. cbv zeta.
+    intros Hops Hw Hsto LΔx Le. unfold g_solve_masked, solve_masked. cbv zeta. rewrite g_solve_masked_for1_order_eq.
     destruct (g_solve_masked_loop_eq gK sts gs 0 [] [] (put 0 (vconst nx n0) Δx) e (vconst nx n0)) as (Δx' & e' & E); auto.
     - rewrite put_length; [exact LΔx | rewrite vconst_length; lia].
     - cbn [Nat.modulo Nat.divmod fst snd Nat.sub Nat.mul]. apply seg_put_same; [lia | rewrite vconst_length; reflexivity].
